@@ -18,6 +18,7 @@ structure St where
   a : Option Pipe := none
   b : Option Pipe := none
   n : Option Nat := none                          -- no-alloc logger: its level
+  c : Option Nat := none                          -- pipeline whose formatter reports success without a line: its level
   slots : Slots := fun _ => none                  -- registered log-subject lists (names per package slot)
   wfail : List Nat := []                          -- ordinals (since case start) of recording-writer calls that fail
   wcalls : Nat := 0                               -- recording-writer calls so far
@@ -69,6 +70,7 @@ def step (s : St) (t : List String) : St × List String :=
       if w == "a" then (if s.a.isSome then (s, ["bad-op"]) else ({ s with a := some { level := level, chan := .foreground, written := [], destroyed := [] } }, []))
       else if w == "b" then (if s.b.isSome then (s, ["bad-op"]) else ({ s with b := some { level := level, chan := .failing, written := [], destroyed := [] } }, []))
       else if w == "n" then (if s.n.isSome then (s, ["bad-op"]) else ({ s with n := some level }, []))
+      else if w == "c" then (if s.c.isSome then (s, ["bad-op"]) else ({ s with c := some level }, []))
       else (s, ["bad-op"])
   | ["setlevel", w, level] =>
     match level.toNat? with
@@ -77,6 +79,7 @@ def step (s : St) (t : List String) : St × List String :=
       if w == "a" then (match s.a with | some p => ({ s with a := some (setLevel p level) }, ["P setlevel OK"]) | none => (s, ["bad-op"]))
       else if w == "b" then (match s.b with | some p => ({ s with b := some (setLevel p level) }, ["P setlevel OK"]) | none => (s, ["bad-op"]))
       else if w == "n" then (match s.n with | some _ => ({ s with n := some level }, ["P setlevel OK"]) | none => (s, ["bad-op"]))
+      else if w == "c" then (match s.c with | some _ => ({ s with c := some level }, ["P setlevel OK"]) | none => (s, ["bad-op"]))
       else (s, ["bad-op"])
   | "subjects" :: slot :: names =>
     match slot.toNat?, names.mapM parseHex? with
@@ -85,6 +88,47 @@ def step (s : St) (t : List String) : St × List String :=
       ({ s with slots := registerSubjects s.slots (slot * 2 ^ AWS_LOG_SUBJECT_STRIDE_BITS) names },
        [s!"W subjects slot={slot} count={names.length}"])
     | _, _ => (s, ["bad-op"])
+  | ["unsubjects", slot] =>
+    match slot.toNat? with
+    | some slot =>
+      if slot = 0 ∨ slot ≥ AWS_PACKAGE_SLOTS then (s, ["bad-op"]) else
+      ({ s with slots := fun i => if i = slot then none else s.slots i }, [s!"W unsubjects slot={slot}"])
+    | none => (s, ["bad-op"])
+  | ["nologger", level, _msgLen] =>
+    -- no logger installed: AWS_LOGF talks to the null logger (level NONE, log does nothing)
+    match level.toNat? with
+    | some _ => (s, ["P nologger lines=0 level=0"])
+    | none => (s, ["bad-op"])
+  | ["strlevel", text] =>
+    match parseHex? text with
+    | some t => (s, [match stringToLevel t with
+                     | some l => s!"P strlevel rc=OK level={l}"
+                     | none => "P strlevel rc=AWS_ERROR_INVALID_ARGUMENT"])
+    | none => (s, ["bad-op"])
+  | ["levelname", level] =>
+    match level.toNat? with
+    | some l => (s, [match levelToString l with
+                     | some n => s!"P levelname rc=OK {hexOf n}"
+                     | none => "P levelname rc=AWS_ERROR_INVALID_ARGUMENT"])
+    | none => (s, ["bad-op"])
+  | ["writerinit", k] =>
+    -- aws_log_writer_init_file: exactly one of file name / open FILE must be given
+    if k == "1" || k == "2" then (s, ["P writerinit rc=OK fds=0"])
+    else if k == "0" || k == "3" then (s, ["P writerinit rc=AWS_ERROR_INVALID_ARGUMENT fds=0"])
+    else (s, ["bad-op"])
+  | ["filelog", kind, k, level] =>
+    -- two logger lifetimes on one file name: the file writer appends ("a+"), the no-alloc logger truncates ("w")
+    match k.toNat?, level.toNat?, subjectName s.slots 0 with
+    | some k, some level, some subject =>
+      let line (r j : Nat) : Option Bytes :=
+        let msg := msgOf (3 + j + 5 * r) 0
+        if kind == "w" then (defaultFormat level subject msg (tsOf tss 1) tid).toOption
+        else (noallocFormat (List.replicate MAXIMUM_NO_ALLOC_LOG_LINE_SIZE 0xAA) level subject msg (tsOf tss 1) tid).toOption
+      let rounds := if kind == "w" then [0, 1] else [1]
+      let ls := rounds.flatMap (fun r => (List.range k).filterMap (line r))
+      if kind != "w" && kind != "n" then (s, ["bad-op"]) else
+      (s, s!"P filelog lines={ls.length} fds=0" :: ls.map lineOut)
+    | _, _, _ => (s, ["bad-op"])
   | "wfail" :: ks =>
     match ks.mapM (fun k => if k == "-" then some none else k.toNat?.map some) with
     | some l => ({ s with wfail := l.filterMap id }, [])
@@ -106,6 +150,10 @@ def step (s : St) (t : List String) : St × List String :=
         | some p => let (p', o) := go p; ({ s with a := some p', wcalls := s.wcalls + (p'.written.length - p.written.length) }, o)
         | none => (s, ["bad-op"]))
       else if w == "b" then (match s.b with | some p => let (p', o) := go p; ({ s with b := some p' }, o) | none => (s, ["bad-op"]))
+      else if w == "c" then (match s.c with
+        -- the formatter says success but hands back no line: s_aws_logger_pipeline_log returns an error, nothing is sent
+        | some _ => (s, ["P log lines=0 live=0 werr=0"])
+        | none => (s, ["bad-op"]))
       else (s, ["bad-op"])
     | _, _, _, _ => (s, ["bad-op"])
   | ["noalloc", level, sid, _expected, msgLen, shape, how] =>
